@@ -11,6 +11,7 @@ import (
 	"encoding/json"
 	"fmt"
 	"math"
+	"reflect"
 	"strings"
 
 	stk "github.com/JesseCoretta/go-stackage"
@@ -60,9 +61,29 @@ func newStack(kind string, capacity int) stk.Stack {
 var optFlag = map[string]int{"paren": 1, "fold": 2, "nopad": 4, "leadonce": 8, "neg": 16, "fwd": 32, "ronly": 128, "nonest": 256}
 
 type histRun struct {
-	s      stk.Stack
-	nested map[int]any
-	plog   []int
+	s         stk.Stack
+	nested    map[int]any
+	plog      []int
+	invariant string
+}
+
+// sameValue: identity for the values a history hands to Push (ints, nil,
+// strings, Stack handles and pointers to aliases)
+func sameValue(a, b any) bool {
+	if a == nil || b == nil {
+		return a == nil && b == nil
+	}
+	ra, rb := reflect.ValueOf(a), reflect.ValueOf(b)
+	if ra.Type() != rb.Type() {
+		return false
+	}
+	switch ra.Kind() {
+	case reflect.Ptr:
+		return ra.Pointer() == rb.Pointer()
+	case reflect.Struct:
+		return reflect.DeepEqual(a, b)
+	}
+	return a == b
 }
 
 func (h *histRun) val(code int) any {
@@ -184,7 +205,19 @@ func (h *histRun) exec(o HOp) (outT string, rec any) {
 			vs = append(vs, h.val(c))
 		}
 		h.plog = nil
-		s.Push(vs...)
+		// handed over as a window onto a larger array, as a caller slicing its
+		// own buffer would: neither the window nor the array behind it is the
+		// library's to rewrite
+		buf := make([]any, len(vs)+2)
+		copy(buf, vs)
+		buf[len(vs)], buf[len(vs)+1] = "guard-1", "guard-2"
+		keep := append([]any{}, buf...)
+		s.Push(buf[:len(vs)]...)
+		for i := range buf {
+			if !sameValue(buf[i], keep[i]) {
+				h.invariant = fmt.Sprintf("Push rewrote the caller's argument slice at position %d of %d", i, len(vs))
+			}
+		}
 		var lt []string
 		for _, c := range h.plog {
 			lt = append(lt, codeTerm(c))
@@ -382,7 +415,7 @@ func runHist(raw json.RawMessage) (res *Result, err error) {
 		capT = "(Some " + coqZ(in.Cap) + ")"
 	}
 	coq := fmt.Sprintf("(MkH %d%%N %s %s %s %s)", kindN[in.Kind], capT, coqList(opTs), coqList(outTs), coqBool(panicked))
-	return &Result{Coq: coq, Observed: recs, Tags: tl, Nontrivial: nmut >= 3 && len(mutKinds) >= 2}, nil
+	return &Result{Coq: coq, Observed: recs, Tags: tl, Nontrivial: nmut >= 3 && len(mutKinds) >= 2, Invariant: h.invariant}, nil
 }
 
 // opTerm renders an op as a Coq term (pure).
